@@ -280,10 +280,29 @@ class str_var_alloc_col {
   // str_variable_factory.  However, we need public copy constructors
   // for str_var_alloc_col. The hack here is to have vfac as a global
   // factory that all str_var_alloc_col's share.
+#ifdef CRAB_VERIF_SIM
+  // Verification hook: the process-wide factory can be replaced by a
+  // fresh one between two simulated cases (when no abstract value is
+  // alive), so that the indexes of the allocated names do not depend
+  // on what the process did before.
+  static std::unique_ptr<str_variable_factory> &verif_vfac_slot() {
+    static std::unique_ptr<str_variable_factory> slot(new str_variable_factory());
+    return slot;
+  }
+  static str_variable_factory &get_vfac() { return *verif_vfac_slot(); }
+
+public:
+  static void verif_reset() {
+    verif_vfac_slot().reset(new str_variable_factory());
+  }
+
+private:
+#else
   static str_variable_factory &get_vfac() {
     static str_variable_factory vfac;
     return vfac;
   }
+#endif
 
 public:
   using varname_t = str_variable_factory::varname_t;
